@@ -183,14 +183,18 @@ def work_rec(job):
                 continue
             sent = None
             for v in vals:
+                if sent is None and False:
+                    pass
                 r = impl.encode(spec, name, v)
                 if r[0] != 'ok':
                     continue
                 data = r[1]
+                if len(data) > 4096:
+                    continue                                  # the time limit is calibrated for inputs of at most 4 KiB
                 if sent is None:
                     sent = (data, impl.decode(spec, name, data))
                 node = None
-                alts = mutations(rng, data, node) + structural_mutations(rng, data)
+                alts = mutations(rng, data, node) + [(k_, a_[:4096]) for k_, a_ in structural_mutations(rng, data)]
                 # single-octet corruptions at every position of short messages (string contents, lengths, tags)
                 if sent[0] is data:
                     alts += [('octet-corruption', data[:i] + bytes([b]) + data[i + 1:]) for i in range(min(len(data), 24)) for b in (0xff, 0x80)]
